@@ -36,6 +36,7 @@ type c18Case struct {
 	Err         int    `json:"err"`                   // failing-reader: index into c10Errors
 	Skip        int    `json:"skip"`                  // seekable: permille of the text already consumed by the caller before parsing
 	EOFWithData bool   `json:"eofwithdata,omitempty"` // the reader reports io.EOF together with its last bytes
+	Transient   bool   `json:"transient,omitempty"`   // failing-reader: one read fails, the following reads succeed
 	SameStat    bool   `json:"samestat,omitempty"`    // file input: the path held other text of the same length and the same times when it was parsed just before
 	NameForm    int    `json:"nameform,omitempty"`    // odd-name: which spelling of the file name is handed to the parsers
 	BOM         bool   `json:"bom"`                   // the text starts with a UTF-8 byte order mark (both parsers must treat it alike)
@@ -156,7 +157,7 @@ func checkC18(c c18Case, ctx *vCtx) *vFailure {
 	mkReader := func() io.Reader {
 		switch c.Input {
 		case "failing-reader":
-			return &vFaultReader{data: []byte(text), failAt: c.FailAt * len(text) / 1000, err: c10Errors[c.Err%len(c10Errors)], chunks: c.Chunks, withLast: c.EOFWithData}
+			return &vFaultReader{data: []byte(text), failAt: c.FailAt * len(text) / 1000, err: c10Errors[c.Err%len(c10Errors)], chunks: c.Chunks, withLast: c.EOFWithData && !c.Transient, once: c.Transient}
 		case "seekable":
 			// a seekable reader the caller has already read from: only the rest is to be parsed
 			r := strings.NewReader(text)
@@ -571,7 +572,7 @@ func genC18(t *rapid.T) c18Case {
 		case kind <= 6:
 			c.Input = []string{"failing-reader", "failing-reader", "failing-reader", "seekable", "closed-file"}[rapid.IntRange(0, 4).Draw(t, "readerkind")]
 			c.FailAt = rapid.IntRange(0, 1000).Draw(t, "failat")
-			c.Err = rapid.IntRange(0, 8).Draw(t, "err")
+			c.Err = rapid.IntRange(0, len(c10Errors)-1).Draw(t, "err")
 			c.Skip = rapid.IntRange(0, 1000).Draw(t, "skip")
 		case kind == 7:
 			c.Input = "missing-file"
@@ -589,6 +590,7 @@ func genC18(t *rapid.T) c18Case {
 	c.BOM = rapid.IntRange(0, 9).Draw(t, "bom") == 0
 	c.EOFWithData = rapid.IntRange(0, 2).Draw(t, "eofwithdata") == 0
 	c.SameStat = rapid.Bool().Draw(t, "samestat")
+	c.Transient = rapid.IntRange(0, 2).Draw(t, "transient") == 0
 	if rapid.IntRange(0, 9).Draw(t, "longline") == 0 {
 		c.LongLine = []int{4096, 8192, 65535, 65536, 70000, 100000, 140000}[rapid.IntRange(0, 6).Draw(t, "longlinen")]
 	}
